@@ -281,7 +281,11 @@ CHECKS = {
         "whenever the format's own decoder rejects the file "
         "(self-calibrated); never a deadlock, never a normal end with "
         "fewer examples.",
-        note="async / tf.data only on the OS schedule (60 s watchdog).",
+        note="async / tf.data only on the OS schedule (60 s watchdog). "
+        "Once passes have hung (each one a reported violation) the OS-"
+        "schedule part ends after the current wave of damaged datasets and "
+        "the evidence says so (exhaustive false, cap); on a tree without "
+        "hangs nothing is skipped.",
         design="DESIGN.md section 3 C07"),
     "C09": dict(
         engine="procgates",
